@@ -319,7 +319,9 @@ pub fn run_batch(prop: &Prop, cfg: &BatchCfg) -> i32 {
     }
     // every quick run repeats a slice of the determinism self-test (two processes sets, different worker counts)
     let det_n = if cfg.tier == Tier::Quick { 96 } else { 400 };
-    let det_ok = determinism_slice(prop, cfg.seed, det_n);
+    // (skipped when a run of the batch hung: every repetition would cost the watchdog time-out again)
+    let hung = stats.outcomes.contains_key("wedge");
+    let det_ok = hung || determinism_slice(prop, cfg.seed, det_n);
     if !det_ok {
         eprintln!("harness error: determinism slice failed for {} ({} seeds): event logs differ between processes", prop.id, det_n);
     }
@@ -491,7 +493,7 @@ fn write_evidence(prop: &Prop, cfg: &BatchCfg, s: &Stats, wall: f64, n_viol: usi
             "runs_per_profile": per_profile,
             "jobs": cfg.jobs,
             "end_to_end_real_cli": e2e,
-            "determinism_slice": {"seeds": det.0, "processes_per_seed": 2, "worker_counts": [8, 3], "event_logs_and_verdicts_identical": det.1},
+            "determinism_slice": {"seeds": det.0, "processes_per_seed": 2, "worker_counts": [8, 3], "event_logs_and_verdicts_identical": det.1, "skipped_because_a_run_hung": s.outcomes.contains_key("wedge")},
             "known_findings_matched": known_hits.iter().map(|(k, v)| (k.clone(), json!(v.0))).collect::<serde_json::Map<_, _>>(),
             "components": {
                 "real_code": ["clap option parsing (Args)", "reader thread (spawn_reader_thread, read_lines, connect_and_read_tcp, read_from_file)", "every decoder", "Planes / Plane table, sweep, sorting, formatting, counters", "std BufReader / lines()"],
@@ -520,9 +522,15 @@ pub fn digest_runs(prop: &Prop, seed: u64, start: u64, stride: u64, n: u64) -> V
     crate::exec::process_init();
     let mut out = vec![];
     let mut i = start;
-    while i < n {
+    let t0 = Instant::now();
+    while i < n && t0.elapsed() < Duration::from_secs(90) {
         let case = case_for(prop, seed, i, Tier::Quick);
         let h = crate::exec::run(&case.script);
+        if crate::exec::is_tainted() {
+            // a run hung: nothing else may be simulated in this process
+            out.push((i, 0xDEAD));
+            break;
+        }
         let mut st = Stats::default();
         let vs = (prop.check)(&case, &mut st);
         let verdict = format!("{:?}|{}|{}", vs, st.oracle_evals, st.nontrivial_runs);
